@@ -83,6 +83,14 @@ macro_rules! assert_remaining {
     };
 }
 
+/// Splits off the first `len` bytes, or reports an error when fewer remain (a
+/// length prefix taken from the wire must not make `Bytes::split_to` panic).
+#[inline]
+pub(crate) fn split_to_checked(b: &mut bytes::Bytes, len: usize) -> Result<bytes::Bytes, IOError> {
+    assert_remaining!(len <= b.len(), "`len` greater than remaining");
+    Ok(b.split_to(len))
+}
+
 pub trait WriteExt {
     fn write_slice(&mut self, src: &[u8]);
     fn write_u8(&mut self, n: u8);
